@@ -47,6 +47,10 @@ def units(ctx):
            for c in cc.merge_contracts()]
     us += [contract_unit(c, world_setup=colls2.setup_byint)
            for c in colls2.contracts()]
+    us += [contract_unit(c, world_setup=cc.setup_mem)
+           for c in cc.functional_contracts()]
+    us += [contract_unit(c, world_setup=cc.setup_dicts)
+           for c in cc.dict_builder_contracts()]
     # functions outside the deductive reach (ordering end-to-end, grouping,
     # join, distinct, memorize interleavings, ...): bounded model comparison
     us.append(bounded_unit(
